@@ -2,6 +2,7 @@
 import importlib
 
 MODULES = [
+    "contracts.py_grammar",
     "contracts.py_fold",
     "contracts.py_asm",
     "contracts.lem_expr",
